@@ -11,11 +11,21 @@ package consensus
 // return time; after all calls every kept selection must still equal its copy, must still be
 // well-formed for its OWN configuration, and recomputing round i after the other rounds must give
 // the copy again (the selection is a function of (seed, configuration) only, not of call history).
+// Seed sequences (TestC29_SeedSequences): getParticipantSelectionSeed itself is put under the
+// "function of its input alone" oracle: the seeds of 2..10 blocks - with fork siblings that agree in
+// height and proposer and differ only in the VRF value, and blocks that agree in all seed inputs and
+// differ in VrfProof / other fields - are requested back to back, in permuted order and again after
+// all others; every answer must equal an independent re-derivation of the seed (hand-written JSON,
+// double SHA-512), and the selection computed from it must equal the one from the reference seed.
 
 import (
+	"bytes"
+	"crypto/sha512"
+	"encoding/base64"
 	"fmt"
 	"math"
 	"reflect"
+	"strconv"
 	"strings"
 	"testing"
 
@@ -29,7 +39,7 @@ import (
 	"verifharness/internal/harn"
 )
 
-const c29Rule = "C in 1..5, N in 3C+1..3C+6, distinct peer indices (1..N | arbitrary uint32 < MaxUint32 | edge values), position table either any table over the members (length 2N..16N, sometimes up to 700 to cross the 512-draw cap; number of distinct members in the table biased to 1,3C-1,3C,3C+1,N; uniform or skewed slot weights) or derived by the real GenesisChainConfig from generated stakes (ties, zeros, heavy skew, more candidates than K); 64-byte seeds random/all-zero/all-FF/one repeated byte/sparse or produced by getParticipantSelectionSeed; non-trivial = the table reaches <= 3C distinct members so the fill-from-Peers path decides well-formedness, or N = 3C+1 (no slack), or a degenerate seed; distinct = different (C, indices, table, seed). Retained-selection sequences: 1..4 configurations (C in 1..4, N in 3C+1..3C+5; peer sets identical / overlapping / pairwise disjoint; tables reaching all members or <= 3C of them) and 2..20 rounds computed back to back (each round: one of the configurations - a configuration change in about every third round - with a fresh seed, a seed derived by getParticipantSelectionSeed from a generated (height, proposer, vrf value), or the seed of an earlier round), every returned selection kept as returned plus a private deep copy taken at return time; after all rounds each kept selection must equal its copy, be well-formed for its own configuration and be reproduced by recomputing that round; non-trivial = at least two rounds with different selections; distinct = different (configurations, round sequence)"
+const c29Rule = "C in 1..5, N in 3C+1..3C+6, distinct peer indices (1..N | arbitrary uint32 < MaxUint32 | edge values), position table either any table over the members (length 2N..16N, sometimes up to 700 to cross the 512-draw cap; number of distinct members in the table biased to 1,3C-1,3C,3C+1,N; uniform or skewed slot weights) or derived by the real GenesisChainConfig from generated stakes (ties, zeros, heavy skew, more candidates than K); 64-byte seeds random/all-zero/all-FF/one repeated byte/sparse or produced by getParticipantSelectionSeed; non-trivial = the table reaches <= 3C distinct members so the fill-from-Peers path decides well-formedness, or N = 3C+1 (no slack), or a degenerate seed; distinct = different (C, indices, table, seed). Retained-selection sequences: 1..4 configurations (C in 1..4, N in 3C+1..3C+5; peer sets identical / overlapping / pairwise disjoint; tables reaching all members or <= 3C of them) and 2..20 rounds computed back to back (each round: one of the configurations - a configuration change in about every third round - with a fresh seed, a seed derived by getParticipantSelectionSeed from a generated (height, proposer, vrf value), or the seed of an earlier round), every returned selection kept as returned plus a private deep copy taken at return time; after all rounds each kept selection must equal its copy, be well-formed for its own configuration and be reproduced by recomputing that round; non-trivial = at least two rounds with different selections; distinct = different (configurations, round sequence). Seed sequences (TestC29_SeedSequences): 2..10 previous blocks (height small or any uint32 < MaxUint32, proposer small or any, VRF value nil/empty/64 zero bytes/0..80 random bytes/mostly 64 random bytes; VrfProof, LastConfigBlockNum, timestamp, previous hash generated too), each after the first either fresh or derived from an earlier block (mostly the one just before it): a fork sibling (same height and proposer, other VRF value: other random value, one flipped bit, one byte more or less, nil<->empty), the same seed inputs with other non-input fields, an equal copy, the same VRF value at another height or with another proposer; 1..2 configurations (C in 1..3); the seed of every block is requested from getParticipantSelectionSeed in generated order, then in a generated permutation, then once more in reverse order (some requests on a freshly built equal block object) and each result must equal the harness's own derivation sha512(sha512(hand-written JSON of (height+1, proposer, base64 VRF value))), the block must be unmodified, and the selection computed from the returned seed must equal the one computed from the reference seed beforehand; non-trivial = some fork sibling is requested directly after its sibling and the sequence has >= 2 different seeds; distinct = different (blocks, configurations)"
 
 type c29Out struct{ P, E, K []uint32 }
 
@@ -576,6 +586,299 @@ func TestC29_RetainedSelections(t *testing.T) {
 		}
 		ev.ClassN("retained:rounds", int64(len(rounds)))
 		ev.Case(len(distinctSel) > 1, shortDesc(full))
+	})
+}
+
+// ---------------------------------------------------------------------------------------------
+// the seed function over sequences of blocks (forks: same height and proposer, other VRF value)
+
+// c29RefSeed re-derives the selection seed of the round after `height` independently of
+// getParticipantSelectionSeed: sha512(sha512(J)) where J is the JSON object with the members
+// block_num = height+1 (uint32 arithmetic), prev_block_proposer and vrf_value (the block's VRF
+// value as a JSON byte string: standard base64 with padding, null for a nil slice), spelled out
+// here by hand instead of through encoding/json and the code's seedData type.
+func c29RefSeed(height, proposer uint32, vrfValue []byte) vconfig.VRFValue {
+	vv := "null"
+	if vrfValue != nil {
+		vv = `"` + base64.StdEncoding.EncodeToString(vrfValue) + `"`
+	}
+	j := `{"block_num":` + strconv.FormatUint(uint64(height+1), 10) +
+		`,"prev_block_proposer":` + strconv.FormatUint(uint64(proposer), 10) +
+		`,"vrf_value":` + vv + `}`
+	h := sha512.New()
+	h.Write([]byte(j))
+	first := h.Sum(nil)
+	h.Reset()
+	h.Write(first)
+	var out vconfig.VRFValue
+	copy(out[:], h.Sum(nil))
+	return out
+}
+
+type c29SeedBlock struct {
+	height, proposer uint32
+	vrfValue         []byte
+	vrfProof         []byte
+	lastCfg          uint32
+	ts               uint32
+	prevHash         common.Uint256
+	how              string // how it was generated
+	rel              int    // the earlier block it was derived from (-1: none)
+	cfg              int
+	blk              *vbft.Block // the object handed to the code (built once, requested many times)
+	ref              vconfig.VRFValue
+	refSel           c29Out
+}
+
+func (b *c29SeedBlock) build() *vbft.Block {
+	var vv, vp []byte
+	if b.vrfValue != nil {
+		vv = append([]byte{}, b.vrfValue...)
+	}
+	if b.vrfProof != nil {
+		vp = append([]byte{}, b.vrfProof...)
+	}
+	return &vbft.Block{
+		Block: &types.Block{Header: &types.Header{Height: b.height, PrevBlockHash: b.prevHash, Timestamp: b.ts}},
+		Info:  &vconfig.VbftBlockInfo{Proposer: b.proposer, VrfValue: vv, VrfProof: vp, LastConfigBlockNum: b.lastCfg},
+	}
+}
+
+func (b *c29SeedBlock) String() string {
+	vv := "nil"
+	if b.vrfValue != nil {
+		vv = fmt.Sprintf("%x", b.vrfValue)
+		if len(vv) > 16 {
+			vv = fmt.Sprintf("%s..(%dB)", vv[:16], len(b.vrfValue))
+		}
+	}
+	return fmt.Sprintf("{h=%d p=%d vrf=%s proof=%x cfgblk=%d ts=%d prev=%x %s}", b.height, b.proposer, vv, b.vrfProof, b.lastCfg, b.ts, b.prevHash[:2], b.how)
+}
+
+// forkOf: same (height, proposer), another VRF value - the two tips of a fork.
+func (b *c29SeedBlock) forkOf(o *c29SeedBlock) bool {
+	return b.height == o.height && b.proposer == o.proposer && (!bytes.Equal(b.vrfValue, o.vrfValue) || (b.vrfValue == nil) != (o.vrfValue == nil))
+}
+
+func genC29VrfValue(t *rapid.T) []byte {
+	switch rapid.IntRange(0, 9).Draw(t, "vvKind") {
+	case 0:
+		return nil
+	case 1:
+		return []byte{}
+	case 2:
+		return make([]byte, 64)
+	case 3:
+		return rapid.SliceOfN(rapid.Byte(), 0, 80).Draw(t, "vvAny")
+	default: // what a real block carries: a 64-byte VRF output
+		return rapid.SliceOfN(rapid.Byte(), 64, 64).Draw(t, "vv64")
+	}
+}
+
+// otherVrfValue: a VRF value different from v (another random one, one flipped bit, one byte
+// more/less, nil <-> empty).
+func otherVrfValue(t *rapid.T, v []byte) []byte {
+	for {
+		var o []byte
+		switch k := rapid.IntRange(0, 5).Draw(t, "otherKind"); {
+		case k == 0 && len(v) > 0:
+			o = append([]byte{}, v...)
+			o[rapid.IntRange(0, len(v)-1).Draw(t, "flipAt")] ^= 1 << uint(rapid.IntRange(0, 7).Draw(t, "flipBit"))
+		case k == 1 && len(v) > 0:
+			o = append([]byte{}, v[:len(v)-1]...)
+		case k == 2:
+			o = append(append([]byte{}, v...), rapid.Byte().Draw(t, "extra"))
+		case k == 3 && len(v) == 0:
+			if v == nil {
+				o = []byte{}
+			}
+		default:
+			o = genC29VrfValue(t)
+		}
+		if !bytes.Equal(o, v) || (o == nil) != (v == nil) {
+			return o
+		}
+	}
+}
+
+func TestC29_SeedSequences(t *testing.T) {
+	ev := harn.For("C29").Rule(c29Rule)
+	ev.Assume("the seed of a round is derived from the previous block as sha512(sha512(JSON{block_num: height+1, prev_block_proposer, vrf_value})) - re-derived by hand in the harness from the unchanged getParticipantSelectionSeed; seed requests are sequential")
+	ev.Floor("seedseq:fork-requested-right-after-sibling", "", 0.50)
+	ev.Floor("seedseq:same-inputs-other-fields", "", 0.30)
+	ev.Floor("seedseq:different-seeds", "", 0.85)
+	harn.Check(t, 5000, 500000, func(t *rapid.T) {
+		nCfg := rapid.IntRange(1, 2).Draw(t, "nCfg")
+		chains := make([]*vconfig.ChainConfig, nCfg)
+		var cdesc []string
+		for k := range chains {
+			c := rapid.IntRange(1, 3).Draw(t, "C")
+			n := 3*c + 1 + rapid.IntRange(0, 3).Draw(t, "slack")
+			var idx []uint32
+			for i := 1; i <= n; i++ {
+				idx = append(idx, uint32(k)*50+uint32(i))
+			}
+			chains[k] = genC29Chain(t, c, idx, uint32(k+1))
+			cdesc = append(cdesc, fmt.Sprintf("cfg%d{C=%d N=%d table=[%s]}", k, c, n, u32s(chains[k].PosTable)))
+		}
+		// blocks
+		nBlocks := rapid.IntRange(2, 10).Draw(t, "blocks")
+		var blocks []*c29SeedBlock
+		for i := 0; i < nBlocks; i++ {
+			b := &c29SeedBlock{rel: -1, cfg: rapid.IntRange(0, nCfg-1).Draw(t, "cfg")}
+			kind := "fresh"
+			if i > 0 {
+				kind = rapid.SampledFrom([]string{"fresh", "fresh", "fork", "fork", "fork", "other-fields", "other-fields", "copy", "other-height", "other-proposer"}).Draw(t, "kind")
+			}
+			if kind == "fresh" {
+				b.height = rapid.OneOf(rapid.Uint32Range(0, 40), rapid.Uint32Range(0, math.MaxUint32-1)).Draw(t, "height")
+				b.proposer = rapid.OneOf(rapid.Uint32Range(0, 8), rapid.Uint32()).Draw(t, "proposer")
+				b.vrfValue = genC29VrfValue(t)
+			} else {
+				b.rel = i - 1 // mostly the block before it (the two tips are looked at one after the other)
+				if rapid.IntRange(0, 2).Draw(t, "relAny") == 0 {
+					b.rel = rapid.IntRange(0, i-1).Draw(t, "rel")
+				}
+				o := blocks[b.rel]
+				b.height, b.proposer, b.vrfValue, b.cfg = o.height, o.proposer, o.vrfValue, o.cfg
+				if b.vrfValue != nil {
+					b.vrfValue = append([]byte{}, o.vrfValue...)
+				}
+				switch kind {
+				case "fork":
+					b.vrfValue = otherVrfValue(t, o.vrfValue)
+				case "other-height":
+					for b.height == o.height {
+						b.height = rapid.OneOf(rapid.Just(o.height+1), rapid.Just(o.height-1), rapid.Uint32Range(0, math.MaxUint32-1)).Draw(t, "height")
+					}
+					if b.height == math.MaxUint32 {
+						b.height = 0
+						if o.height == 0 {
+							b.height = 1
+						}
+					}
+				case "other-proposer":
+					for b.proposer == o.proposer {
+						b.proposer = rapid.OneOf(rapid.Just(o.proposer+1), rapid.Uint32Range(0, 8), rapid.Uint32()).Draw(t, "proposer")
+					}
+				}
+				if kind == "copy" {
+					b.vrfProof, b.lastCfg, b.ts, b.prevHash = o.vrfProof, o.lastCfg, o.ts, o.prevHash
+				}
+			}
+			if kind != "copy" { // everything that is NOT an input of the seed
+				b.vrfProof = rapid.OneOf(rapid.Just([]byte(nil)), rapid.SliceOfN(rapid.Byte(), 1, 12)).Draw(t, "vrfProof")
+				b.lastCfg = rapid.Uint32Range(0, 50).Draw(t, "lastCfg")
+				b.ts = rapid.Uint32().Draw(t, "ts")
+				copy(b.prevHash[:], rapid.SliceOfN(rapid.Byte(), 4, 4).Draw(t, "prevHash"))
+			}
+			b.how = kind
+			if b.rel >= 0 {
+				b.how = fmt.Sprintf("%s-of-%d", kind, b.rel)
+			}
+			b.blk = b.build()
+			b.ref = c29RefSeed(b.height, b.proposer, b.vrfValue)
+			blocks = append(blocks, b)
+		}
+		var bdesc []string
+		for i, b := range blocks {
+			bdesc = append(bdesc, fmt.Sprintf("%d:%v/cfg%d", i, b, b.cfg))
+		}
+		full := fmt.Sprintf("seedseq blocks=[%s] %s", strings.Join(bdesc, " "), strings.Join(cdesc, " "))
+		// reference selections, from the reference seeds (before the code's seed function is called at all)
+		for _, b := range blocks {
+			b.refSel = c29Run(t, chains[b.cfg], b.ref, full).clone()
+			if err := c29WellFormed(chains[b.cfg], b.refSel); err != nil {
+				t.Fatalf("selection from the reference seed %x is malformed: %v; %s", b.ref[:8], err, full)
+			}
+		}
+		// request order: the blocks as generated, then a generated permutation, then every block once more
+		// after all the others (last pass: reverse order), some requests on a freshly built equal block object
+		var order []int
+		order = append(order, seqInts(len(blocks))...)
+		order = append(order, rapid.Permutation(seqInts(len(blocks))).Draw(t, "secondPass")...)
+		for i := len(blocks) - 1; i >= 0; i-- {
+			order = append(order, i)
+		}
+		forkAdjacent, sameInputsAdjacent := false, false
+		var odesc []string
+		for n, i := range order {
+			b := blocks[i]
+			obj := b.blk
+			if n >= len(blocks) && rapid.IntRange(0, 3).Draw(t, "rebuild") == 0 {
+				obj = b.build()
+			}
+			var got vconfig.VRFValue
+			func() {
+				defer func() {
+					if p := recover(); p != nil {
+						t.Fatalf("getParticipantSelectionSeed panicked (%v) on block %d; %s", p, i, full)
+					}
+				}()
+				got = vbft.VerifGetParticipantSelectionSeed(obj)
+			}()
+			odesc = append(odesc, fmt.Sprint(i))
+			if !reflect.DeepEqual(obj, b.build()) {
+				t.Fatalf("getParticipantSelectionSeed modified block %d; %s", i, full)
+			}
+			sel := c29Run(t, chains[b.cfg], got, full).clone()
+			if got != b.ref {
+				prev := "nothing in this case (earlier cases of this process requested the seeds of other blocks)"
+				if n > 0 {
+					prev = fmt.Sprintf("block %d %v (its seed: %x)", order[n-1], blocks[order[n-1]], blocks[order[n-1]].ref[:8])
+				}
+				t.Fatalf("request #%d (order %s): the seed of block %d %v is %x, but sha512(sha512(json(height+1=%d, proposer=%d, vrf value))) = %x; the request before it was for %s; selection from the returned seed {%v}, from the derived seed {%v}: the seed (and the round's participants) must be a function of the block alone, not of the requests made before; %s",
+					n, strings.Join(odesc, ","), i, b, got[:8], b.height+1, b.proposer, b.ref[:8], prev, sel, b.refSel, full)
+			}
+			if !reflect.DeepEqual(sel, b.refSel) {
+				t.Fatalf("request #%d: selection from the seed of block %d is {%v}, from the reference seed {%v}; %s", n, i, sel, b.refSel, full)
+			}
+			if n > 0 {
+				pb := blocks[order[n-1]]
+				if b.forkOf(pb) {
+					forkAdjacent = true
+				}
+				if pb != b && pb.ref == b.ref {
+					sameInputsAdjacent = true
+				}
+			}
+		}
+		// classification
+		seeds := map[vconfig.VRFValue]bool{}
+		sels := map[string]bool{}
+		forkPair, sameInputs := false, false
+		for i, b := range blocks {
+			seeds[b.ref] = true
+			sels[fmt.Sprintf("cfg%d %v", b.cfg, b.refSel)] = true
+			for _, o := range blocks[:i] {
+				if b.forkOf(o) {
+					forkPair = true
+				}
+				if o.ref == b.ref {
+					sameInputs = true
+				}
+			}
+		}
+		if forkPair {
+			ev.Class("seedseq:fork-pair")
+		}
+		if forkAdjacent {
+			ev.Class("seedseq:fork-requested-right-after-sibling")
+		}
+		if sameInputs {
+			ev.Class("seedseq:same-inputs-other-fields")
+		}
+		if sameInputsAdjacent {
+			ev.Class("seedseq:same-inputs-requested-back-to-back")
+		}
+		if len(seeds) > 1 {
+			ev.Class("seedseq:different-seeds")
+		}
+		if len(sels) > 1 {
+			ev.Class("seedseq:different-selections")
+		}
+		ev.ClassN("seedseq:requests", int64(len(order)))
+		ev.Case(forkAdjacent && len(seeds) > 1, shortDesc(full))
 	})
 }
 
